@@ -41,7 +41,7 @@ CONVERTERS = [
 
 
 def _fmt_summary(ex, func, args, kwargs, so, node):
-    ex.emit("format_call", node, owner=func.cls.name if func.cls else None, args=args, kwargs=kwargs)
+    ex.emit("format_call", node, owner=func.cls.name if func.cls else getattr(getattr(func, "owner_cls", None), "name", None), args=args, kwargs=kwargs)
     return OpaqueV("formatted", {"kind": "frame"})
 
 
@@ -417,7 +417,7 @@ def _columns_reset(p):
     for e in p.events:
         if e.kind == "ext_attr_store" and e.data.get("attr") == "columns":
             v = e.data.get("value")
-            if isinstance(v, RangeV) and isinstance(v.lo, Num) and v.lo.nf.as_const() == 0 and v.step.nf.as_const() == 1 and "columns" in valkey(v.hi) and "size" in valkey(v.hi):
+            if isinstance(v, RangeV) and isinstance(v.lo, Num) and v.lo.nf.as_const() == 0 and v.step.nf.as_const() == 1 and "columns" in valkey(v.hi) and ("size" in valkey(v.hi) or "len(" in valkey(v.hi) or "shape" in valkey(v.hi)):
                 return True
             if isinstance(v, Num) and v.nf is not None:
                 a = single_atom(v.nf)
